@@ -226,7 +226,7 @@ pub fn c03(m: &Movie, cfg: &Cfg, e: &Expect) -> Issues {
                 break;
             }
         }
-        if sum < (1u64 << 32) && t.mdhd.duration != sum {
+        if t.mdhd.duration != sum {
             out.push((format!("{what}/mdhd-duration"), format!("mdhd duration {} but sample durations sum to {sum}", t.mdhd.duration)));
         }
     };
@@ -238,7 +238,7 @@ pub fn c03(m: &Movie, cfg: &Cfg, e: &Expect) -> Issues {
 }
 
 /// C15: storage order.
-pub fn c15(m: &Movie, cfg: &Cfg, e: &Expect) -> Issues {
+pub fn c15(d: &[u8], m: &Movie, cfg: &Cfg, e: &Expect) -> Issues {
     let mut out = Issues::new();
     if cfg.audio.is_none() {
         return out;
@@ -256,25 +256,47 @@ pub fn c15(m: &Movie, cfg: &Cfg, e: &Expect) -> Issues {
             }
         }
     }
-    let reordered = e.video.iter().any(|x| x.pts != x.dts);
+    // "stored in sample order" is a statement about the payloads, not only about the offsets in
+    // the table: sample i's range must hold sample i's bytes (a writer that emits payloads in
+    // another order than it numbers them keeps monotone offsets)
+    for (s, exp, what) in [(&vs, &e.video, "video"), (&as_, &e.audio, "audio")] {
+        for (i, (loc, x)) in s.iter().zip(exp.iter()).enumerate() {
+            let (a, b) = (loc.offset as usize, loc.offset as usize + loc.size as usize);
+            if b > d.len() || d[a..b] != x.bytes[..] {
+                out.push((format!("{what}/sample-order-by-content"), format!("the range the table gives for sample {i} ({a}..{b}) does not hold that sample's payload")));
+                break;
+            }
+        }
+    }
+    // reordering = presentation order differs from decode order; a composition delay that
+    // keeps the order is not reordering. With offsets and without reordering the statement does
+    // not say which of the two timestamps the merge follows: either is accepted.
+    let reordered = e.video.windows(2).any(|w| w[1].pts <= w[0].pts) && e.video.iter().any(|x| x.pts != x.dts);
     if !reordered {
+        let merge = |use_dts: bool| {
+            let mut by_time: Vec<(u64, u8, usize)> = vec![];
+            for (i, x) in e.video.iter().enumerate() {
+                by_time.push((if use_dts { x.dts } else { x.pts }, 0, i));
+            }
+            for (i, x) in e.audio.iter().enumerate() {
+                by_time.push((x.pts, 1, i));
+            }
+            by_time.sort();
+            by_time.iter().map(|x| (x.1, x.2)).collect::<Vec<(u8, usize)>>()
+        };
         // (offset, track, index) by file offset must equal sort by (tick, video first, index)
         let mut by_off: Vec<(u64, u8, usize)> = vec![];
-        let mut by_time: Vec<(u64, u8, usize)> = vec![];
         for (i, s) in vs.iter().enumerate() {
             by_off.push((s.offset, 0, i));
-            by_time.push((e.video[i].pts, 0, i));
         }
         for (i, s) in as_.iter().enumerate() {
             by_off.push((s.offset, 1, i));
-            by_time.push((e.audio[i].pts, 1, i));
         }
         by_off.sort();
-        by_time.sort();
         let o: Vec<(u8, usize)> = by_off.iter().map(|x| (x.1, x.2)).collect();
-        let t: Vec<(u8, usize)> = by_time.iter().map(|x| (x.1, x.2)).collect();
-        if o != t {
-            out.push(("interleave/not-timestamp-merge".into(), format!("storage order {o:?} but timestamp merge is {t:?} (0=video,1=audio)")));
+        let (t_dts, t_pts) = (merge(true), merge(false));
+        if o != t_dts && o != t_pts {
+            out.push(("interleave/not-timestamp-merge".into(), format!("storage order {o:?} but the timestamp merge is {t_dts:?} by decode time / {t_pts:?} by presentation time (0=video,1=audio)")));
         }
     }
     out
